@@ -82,7 +82,7 @@ def check(cx):
                        "new head read from the popped page", "the new free-list head does not come from the popped page's next pointer")
 
     r3 = cx.rule("C11.3", "MPT: an allocated page is marked dirty and cached on every success path of allocate_page; a "
-                 "deallocated page is rewritten as a free page, linked behind the old tail, and cached", floor=4)
+                 "deallocated page is rewritten as a free page, linked behind the old tail, and cached", floor=5)
     if f:
         md = {x.id for x in p.fns.values() if x.name == "mark_dirty" and (x.impl_adt or "").endswith("MemFrame")}
         cx.verdict(bool(md) and p.all_success_paths_call(f, md, 0), r3, "alloc:mark_dirty", f.where(),
@@ -99,9 +99,25 @@ def check(cx):
         link = [c for c in g.calls() if c.callee == K.PAGER + "::with_page_mut"]
         cx.verdict(bool(link), r3, "dealloc:link", g.where(), "old tail's next is set", "the old tail is no longer linked to the freed page")
 
+    if g:
+        # the image written to disk and cached is the *converted* free page (result of MemFrame::dealloc)
+        dl = [c for c in g.calls() if c.callee.endswith("MemFrame::dealloc")]
+        wb = [c for c in g.calls() if c.callee.endswith("MemFrame::with_bytes") or c.callee.endswith("MemFrame::with_bytes_mut")]
+        cf = [c for c in g.calls() if c.callee == K.PAGER + "::cache_frame"]
+        good = bool(dl) and bool(wb) and bool(cf)
+        for w in wb:
+            recv = op_local(w.args[0])
+            good = good and any(op_local({"c": d.dst}) in (g.dep_closure(recv) | {recv}) and g.dominates(d.bb, w.bb) for d in dl)
+        for c in cf:
+            a = op_local(c.args[1])
+            good = good and any(op_local({"c": d.dst}) in (g.dep_closure(a) | {a}) for d in dl)
+        cx.verdict(good, r3, "dealloc:free-image-written", g.where(), "the page written and cached is the converted free page",
+                   "dealloc_page writes/caches the page before (or without) converting it to a free page: the disk keeps the old "
+                   "live image, whose pointer fields are then read as the free-list link (cyclic or dangling free list)")
+
     r4 = cx.rule("C11.4", "MPT: in Btree::{update_cell, remove, remove_tuple} the cell taken out of the page flows into "
                  "CellDeallocator::deallocate_cell on every success path after it was taken; Btree::dealloc frees overflow "
-                 "chains; Catalog::remove_relation frees the tree", floor=5)
+                 "chains; Catalog::remove_relation frees the tree; a drained child page is freed", floor=6)
     dc = "tree::cell_ops::CellDeallocator::deallocate_cell"
     for name in ("update_cell", "remove", "remove_tuple"):
         h = cx.guard(r4, name, p.fn, BT + name)
@@ -117,6 +133,15 @@ def check(cx):
         cx.verdict(good and bool(taken), r4, name, h.where(), "%d take(s), each followed by deallocate_cell" % len(taken),
                    "Btree::%s takes a cell out of a page and can return successfully without handing it to the cell "
                    "deallocator: its overflow pages are leaked" % name)
+    h = cx.guard(r4, "balance_shallower", p.fn, BT + "balance_shallower")
+    if h:
+        dr = [c for c in h.calls() if c.callee.rsplit("::", 1)[-1] == "drain" and "storage::" in c.callee]
+        good = bool(dr)
+        for d in dr:
+            good = good and d.term["to"] is not None and p.all_success_paths_call(h, p.must_reach_set({DEALLOC}), d.term["to"])
+        cx.verdict(good, r4, "balance_shallower:drained-child-freed", h.where(), "the drained child page is deallocated on every success path",
+                   "balance_shallower drains the root's only child into the root and returns without freeing the child page: "
+                   "one page per removed level is neither in a tree nor on the free list")
     h = cx.guard(r4, "dealloc", p.fn, BT + "dealloc")
     if h:
         cx.verdict(p.reaches(h.id, BT + "dealloc_overflow_chain") and p.reaches(h.id, DEALLOC), r4, "dealloc:overflow", h.where(),
